@@ -264,6 +264,12 @@ def main():
             notes.append("partial run (--only)")
         if not jobs:
             continue
+        # conf keys every shared harness may read: "for" (the property whose labels a shared harness asserts;
+        # empty = all), "fieldmask" (dagenv: commits that write the field; 0 = all)
+        for j in jobs:
+            j.setdefault("conf", {})
+            j["conf"].setdefault("for", "")
+            j["conf"].setdefault("fieldmask", 0)
         meta = {j["id"]: j for j in jobs}
         ejobs = []
         for j in jobs:
